@@ -143,6 +143,8 @@ def py_len(I, x: Any, st: State) -> Iterator[tuple[State, Any]]:
     if isinstance(x, (str,)):
         yield st, len(x)
     elif isinstance(x, (SList, STuple)):
+        if getattr(x, "is_set", False):
+            raise OutsideSubset("len of a modelled set")
         if getattr(x, "havocked", False):
             yield st, fresh("len", z3.IntSort())
         else:
@@ -600,6 +602,13 @@ def str_method(I, s: Any, name: str, pos: list, kw: dict, st: State) -> Iterator
 
 
 def list_method(I, lst: SList, name: str, pos: list, kw: dict, st: State) -> Iterator[tuple[State, Any]]:
+    if getattr(lst, "is_set", False):
+        # a set modelled by the list of the elements added so far: only membership and `add` are meaningful
+        if name != "add":
+            raise OutsideSubset(f"set.{name}")
+        lst.items.append(pos[0])
+        yield st, None
+        return
     if name == "append":
         lst.items.append(pos[0])
         yield st, None
